@@ -127,6 +127,7 @@ def parseEnc (name : String) (a : List String) : Option Enc :=
   | "reqResolveEid", [e] => do pure (.reqResolveEid (← parseByte e))
   | "reqAllocate", [op, n, f] => do pure (.reqAllocate (← parseByte op) (← parseByte n) (← parseByte f))
   | "reqRouting", [es] => do pure (.reqRouting (← parseBytes es))
+  | "reqRoutingNew", [es] => do pure (.reqRouting (← parseBytes es))   -- entries built by `::new` (types 0-3)
   | "reqGetRouting", [h] => do pure (.reqGetRouting (← parseByte h))
   | "reqPrepare", [] => some .reqPrepare
   | "reqDiscovery", [] => some .reqDiscovery
@@ -475,6 +476,26 @@ def handle (st : St) (line : String) : St × String :=
           [("C13", Spec.judgeSet "C13" c.spec (.setUuid u) oe)]
         (st.put id ⟨c', c.spec.step (.setUuid u)⟩, answer m judge impl)
     | _, _ => (st, "bad-op")
+  | ["encalias", id, dst, name, k, data, bufs] =>
+    -- the header is the first `k` bytes of the data (in the Rust call: a sub-slice of the same memory)
+    match st.get id, parseByte dst, k.toNat?, parseBytes data, parseBytes bufs with
+    | some c, some d, some k, some dat, some b =>
+      let e? : Option Enc :=
+        if k > dat.length then none
+        else match name with
+          | "genControl" => some (.genControl (some (dat.take k)) dat)
+          | "genPci" => some (.genPci (some (dat.take k)) dat)
+          | "genIana" => some (.genIana (some (dat.take k)) dat)
+          | "genSpdm" => some (.genSpdm .spdm (some (dat.take k)) dat)
+          | _ => none
+      match e? with
+      | some e =>
+        let m := showEnc (encode c.model d e b) b
+        let judge := fun (o : String) => (parseEncObs (toks o)).map fun (eo, eb) =>
+          (keepProps st encProps).map fun pr => (pr, Spec.judgeEnc pr c.spec d e b eo eb)
+        (st, answer m judge impl)
+      | none => (st, "bad-op")
+    | _, _, _, _, _ => (st, "bad-op")
   | "enc" :: id :: dst :: name :: rest | "encr" :: id :: dst :: name :: rest =>
     match st.get id, parseByte dst, rest.getLast? with
     | some c, some d, some bufs =>
